@@ -206,11 +206,27 @@ def r028(eng, rep) -> None:
             g = prog.functions.get(q2)
             if g is None:
                 continue
+            gdefs = None
             for st in walk_local(g.node):
                 if isinstance(st, ast.If) and any(isinstance(b, ast.Raise) for b in st.body) and isinstance(st.test, ast.Compare):
                     for c in ast.walk(st.test):
                         if isinstance(c, ast.Call) and cg.site_of.get(id(c)) and f.qual in cg.site_of[id(c)].callees:
                             used_in_guard = (g, st)
+                        elif isinstance(c, ast.Name):
+                            # a local bound to the bound function's result, or a parameter that receives it at a call site
+                            from ..dataflow import Defs as _Defs
+                            gdefs = gdefs or _Defs(g.node)
+                            for k_, v_, st_ in gdefs.values(c.id):
+                                if isinstance(v_, ast.Call) and cg.site_of.get(id(v_)) and f.qual in cg.site_of[id(v_)].callees:
+                                    used_in_guard = (g, st)
+                            gps = [p.arg for p in g.params]
+                            if c.id in gps:
+                                for cs in cg.callers_of(g.qual):
+                                    off = 1 if (g.cls is not None and gps and gps[0] in ("self", "cls") and isinstance(cs.node.func, ast.Attribute)) else 0
+                                    ai = gps.index(c.id) - off
+                                    a_ = cs.node.args[ai] if 0 <= ai < len(cs.node.args) else next((k.value for k in cs.node.keywords if k.arg == c.id), None)
+                                    if isinstance(a_, ast.Call) and cg.site_of.get(id(a_)) and f.qual in cg.site_of[id(a_)].callees:
+                                        used_in_guard = (g, st)
         if used_in_guard is None:
             continue
         n += 1
